@@ -158,3 +158,120 @@ func c15Several(c *h.Ctx, id string, r *rand.Rand) {
 	c.Count("concurrent_fetches", int64(nObj))
 	c.Distinct(fmt.Sprintf("several|n=%d", nObj))
 }
+
+// c15ServeWhilePublishing: the on-disk store is read (Interests being served) while a publisher
+// adds further objects. Every read must return the stored packet of exactly the requested name and
+// afterwards every published segment must be retrievable under its own name.
+func c15ServeWhilePublishing(c *h.Ctx, id string, r *rand.Rand) {
+	c.Eval(1)
+	log.SetLevel(log.FatalLevel)
+	st, err := c15Store(c, "bolt", "serve_"+fmt.Sprint(c.Batch)+"_"+fmt.Sprint(r.Intn(1<<30)))
+	if err != nil {
+		c.Inconclusive("cannot open store: " + err.Error())
+		return
+	}
+	defer st.closeFn()
+	tm := simeng.NewTimer()
+	f := simeng.NewFace(true)
+	e := basic.NewEngine(f, tm, sec.NewSha256IntSigner(tm), func(enc.Name, enc.Wire, ndn.Signature) bool { return true })
+	if e.Start() != nil {
+		c.Inconclusive("engine start failed")
+		return
+	}
+	cl := object.NewClient(e, st.store)
+	// objects already published: the ones being served
+	type seg struct {
+		name enc.Name
+		wire []byte
+	}
+	var old []seg
+	for i := 0; i < 6; i++ {
+		on, _ := enc.NameFromStr(fmt.Sprintf("/served/o%d", i))
+		raw, wire := c15Content(r, 8000*2+100*(i+1))
+		v := uint64(7)
+		if _, err := cl.Produce(object.ProduceArgs{Name: on.Clone(), Content: wire, Version: &v}); err != nil {
+			c.Violation("C15:produce-error", id, "Produce failed: "+err.Error(), nil)
+			return
+		}
+		_ = raw
+		for sg := 0; sg < 3; sg++ {
+			n := append(on.Clone(), enc.NewVersionComponent(7), enc.NewSegmentComponent(uint64(sg)))
+			w, _ := st.store.Get(n.Clone(), false)
+			if w == nil {
+				c.Inconclusive("a published segment is not in the store")
+				return
+			}
+			old = append(old, seg{n, append([]byte{}, w...)})
+		}
+	}
+	stop := make(chan struct{})
+	var wg sync.WaitGroup
+	var mu sync.Mutex
+	bad := ""
+	reads := 0
+	for g := 0; g < 2; g++ {
+		wg.Add(1)
+		go func(g int) {
+			defer wg.Done()
+			for k := g; ; k++ {
+				select {
+				case <-stop:
+					return
+				default:
+				}
+				s := old[k%len(old)]
+				w, _ := st.store.Get(s.name.Clone(), false)
+				mu.Lock()
+				reads++
+				if !bytes.Equal(w, s.wire) && bad == "" {
+					bad = fmt.Sprintf("Get(%s) returned %d bytes that are not the stored packet (%d bytes) while another object was being published", s.name, len(w), len(s.wire))
+				}
+				mu.Unlock()
+			}
+		}(g)
+	}
+	// the publisher
+	nNew := 3 + r.Intn(3)
+	type pub struct {
+		name enc.Name
+		segs int
+	}
+	var pubs []pub
+	for i := 0; i < nNew; i++ {
+		on, _ := enc.NameFromStr(fmt.Sprintf("/published/n%d", i))
+		size := 8000 * (20 + r.Intn(40))
+		_, wire := c15Content(r, size)
+		v := uint64(3)
+		if _, err := cl.Produce(object.ProduceArgs{Name: on.Clone(), Content: wire, Version: &v}); err != nil {
+			close(stop)
+			wg.Wait()
+			c.Violation("C15:produce-error", id, "Produce failed: "+err.Error(), nil)
+			return
+		}
+		pubs = append(pubs, pub{on, size / 8000})
+	}
+	close(stop)
+	wg.Wait()
+	c.Count("store_reads_during_publication", int64(reads))
+	if bad != "" {
+		c.Violation("C15:store-read-wrong-during-publication", id, bad, nil)
+		return
+	}
+	for _, p := range pubs {
+		for sg := 0; sg < p.segs; sg++ {
+			n := append(p.name.Clone(), enc.NewVersionComponent(3), enc.NewSegmentComponent(uint64(sg)))
+			w, _ := st.store.Get(n.Clone(), false)
+			ok := false
+			if w != nil {
+				if v, err := viewPacket(w); err == nil && v.name.Equal(n) {
+					ok = true
+				}
+			}
+			if !ok {
+				c.Violation("C15:published-segment-missing", id, fmt.Sprintf("segment %s of an object published while the store was being read is not retrievable under its own name afterwards (Produce reported success)", n), map[string]any{"reads_during_publication": reads})
+				return
+			}
+		}
+	}
+	c.Distinct("serve-while-publishing")
+}
